@@ -77,6 +77,8 @@ def Skeleton.pinned : Skeleton where
   reqLoopExitsOnReadErr := true
   reqFrameFreshPerIteration := true
   respFrameFreshPerIteration := true
+  reqLoopBlocksOnlyOnRead := true
+  respLoopBlocksOnlyOnRead := true
   lkSplitOnDot := true
   lkEmptyPathRejected := true
   lkWalksAllButLast := true
@@ -90,6 +92,7 @@ def Skeleton.pinned : Skeleton where
   lkRecoversPanics := false
   lkFallbackIsClosureManager := true
   lkFallbackRejectsNonFunc := true
+  lkResolvesPerRequest := true
   lkClosureManagerMethods := ["CallClosure"]
   lkArgCountChecked := true
   lkArgCountBeforeDecode := true
@@ -146,6 +149,7 @@ def Skeleton.pinned : Skeleton where
   stDecodeErrBeforeClose := true
   stDecoderExitsOnErr := true
   stAbortClosesDone := false
+  stDoneClosedOncePerExit := true
   stReadersSelectDone := true
   stEncodeRequestOnly := true
   stEncodeResponseOnly := true
